@@ -127,6 +127,7 @@ func init() {
 		}
 		end()
 
+		drawUpperHabit(rng)
 		var cases []handlerCase
 		for _, hc := range mkCases(app, addrs) {
 			// MsgUpdateSwapFeeParamsRequest contains "swap": the ante fee floor of 0.1 rowan applies to it, and a paid fee
@@ -186,7 +187,11 @@ func init() {
 			if shape == "spoof" || shape == "spoofwrapped" {
 				fieldSigner = holderOf(hc)
 			}
-			msg := hc.build(ctx, addrs[fieldSigner].String(), k)
+			fieldStr := addrs[fieldSigner].String()
+			if k%5 == 3 {
+				fieldStr = upperOf(addrs[fieldSigner]) // the Signer field in its upper-case spelling: the same account
+			}
+			msg := hc.build(ctx, fieldStr, k)
 			msgs := []sdk.Msg{msg}
 			if shape == "wrapped" || shape == "spoofwrapped" {
 				e := authz.NewMsgExec(addrs[signer], []sdk.Msg{msg})
@@ -218,6 +223,13 @@ func init() {
 			} else {
 				out.Hist[cls]++
 			}
+			if hc.name == "RemoveAccount" && res == "ok" {
+				role, raw := hc.payload(k)
+				if acc, err := sdk.AccAddressFromBech32(raw); err == nil {
+					still := app.AdminKeeper.IsAdminAccount(dctx(), admintypes.AdminType(admintypes.AdminType_value[role]), acc)
+					out.Emit(fmt.Sprintf("chk c08.removed tag=authtx.admin.RemoveAccount.stillholds %s %s %s", role, raw, b2s(still)), "true", "chk.removed", false)
+				}
+			}
 			end()
 		}
 		// phase 1: every handler, direct and wrapped, by its role holder and by a stranger; spoofed both ways
@@ -235,6 +247,20 @@ func init() {
 			k++
 			one(hc, "spoofwrapped", noRole[k%3], k)
 			k++
+		}
+		// directed: grant / use / remove / use for an account named in upper case (12) and one named in lower case (11)
+		var updatePools handlerCase
+		for _, hc := range cases {
+			if hc.name == "UpdatePools" {
+				updatePools = hc
+			}
+		}
+		for _, acct := range []int{12, 11} {
+			kk := 5 + 6*acct
+			one(cases[0], "direct", 10, kk)
+			one(updatePools, "direct", acct, 6*acct)
+			one(cases[1], "direct", 10, kk)
+			one(updatePools, "wrapped", acct, 6*acct)
 		}
 		// phase 2: the table evolves through transactions
 		for out.N < n {
